@@ -20,8 +20,12 @@ import Driver.Util
       wt=HEX,.. wu=HEX,.. wm=0|1    (per-host transports / users given as prefixes of -w words; a malformed prefix)
       obs=rej:<diag>  |  obs=hang  |  obs=acc:<fanout>:<ctmo>:<utmo>:<ruser>:<rcmd>:<path>   [mw=HEX]
       [uown=HEX] uobs=HEX          (a target that names the user `uown` itself was contacted as `uobs`)
-      peak=N                       (N commands were seen running at the same time; more targets than the fanout allows)
+      peak=N [ntargets=M]          (N commands were seen running at the same time; more targets than the fanout allows,
+                                    or M targets in all)
       cut=0|1 short=N long=N       (a command running between `short` and `long` seconds was / was not cut short)
+      ccut=0|1 cshort=N clong=N    (a host answering the connect handshake after between `cshort` and `clong` seconds was / was not given up first)
+      cgiven=0|1 cwait=N cwdog=N cslack=N   (a host that never answers was / was not given up, after N tenths of a second)
+      pobs=HEX                     (the program that was run on the remote side of a copy)
         -> "ok" | space-separated violated clauses
 -/
 namespace Driver.OptDrv
@@ -137,15 +141,25 @@ def stepSpec (line : String) : String :=
       | some o => Spec.judgeUser cfg (kvHex ws "uown") o
       | none => []
     let fu := match (kv ws "peak").bind String.toInt? with
-      | some pk => Spec.judgeFanoutUsed cfg pk
+      | some pk => Spec.judgeFanoutUsed cfg pk ((kv ws "ntargets").bind String.toInt?)
       | none => []
     let tu := match (kv ws "cut"), (kv ws "short").bind String.toInt?, (kv ws "long").bind String.toInt? with
       | some ct, some sh, some lg => Spec.judgeTimeoutUsed cfg sh lg (ct = "1")
       | _, _, _ => []
+    let cu := match (kv ws "ccut"), (kv ws "cshort").bind String.toInt?, (kv ws "clong").bind String.toInt? with
+      | some ct, some sh, some lg => Spec.judgeConnectUsed cfg sh lg (ct = "1")
+      | _, _, _ => []
+    let cg := match (kv ws "cgiven"), (kv ws "cwait").bind String.toInt?, (kv ws "cwdog").bind String.toInt?,
+                    (kv ws "cslack").bind String.toInt? with
+      | some g, some w, some wd, some sl => Spec.judgeConnectGiven cfg (g = "1") w wd sl
+      | _, _, _, _ => []
+    let pu := match kvHex ws "pobs" with
+      | some o => Spec.judgePathUsed cfg o
+      | none => []
     match a, kv ws "obs" with
     | none, some _ => "bad-op"
     | _, _ =>
-      let all := a.getD [] ++ m ++ u ++ fu ++ tu
+      let all := a.getD [] ++ m ++ u ++ fu ++ tu ++ cu ++ cg ++ pu
       if all = [] then "ok" else " ".intercalate all
   | _, _ => "bad-op"
 
